@@ -95,14 +95,14 @@ func c13Probes(st *openStore, t *interner, extra []*SOp) (items []string, done [
 }
 
 type c13Desc struct {
-	Mode      string   `json:"mode"`
-	Script    []*SOp   `json:"script"`
-	Acked     int      `json:"acked"`
-	Inflight  *SOp     `json:"inflight,omitempty"`
-	KillAt    string   `json:"kill_at,omitempty"`
-	Downgrade *int     `json:"downgrade_to,omitempty"`
-	OpenErr   string   `json:"open_error,omitempty"`
-	Probes    []*SOp   `json:"probes,omitempty"`
+	Mode      string `json:"mode"`
+	Script    []*SOp `json:"script"`
+	Acked     int    `json:"acked"`
+	Inflight  *SOp   `json:"inflight,omitempty"`
+	KillAt    string `json:"kill_at,omitempty"`
+	Downgrade *int   `json:"downgrade_to,omitempty"`
+	OpenErr   string `json:"open_error,omitempty"`
+	Probes    []*SOp `json:"probes,omitempty"`
 }
 
 func c13Case(acked []string, inflight string, downgrade string, openOK bool, probes []string) string {
@@ -186,6 +186,8 @@ func runC13(ctx *Ctx) {
 			if lc := c12Lifecycles(); i%5 == 4 {
 				// a node and an account with unusual names, their whole life, with restarts in between
 				ops = lc[(i/5)%len(lc)]
+			} else if co := c12Corpus(); i%5 == 3 && i/5 < len(co) {
+				ops = co[i/5]
 			}
 			// reopen after random operations
 			var script []*SOp
@@ -542,7 +544,7 @@ func c13CommitPoints(ctx *Ctx, i int) {
 		&SOp{Op: "AddAcctBal", Acct: acctAlphabet[0], Amount: "7"}, &SOp{Op: "AddAcctNode", Acct: acctAlphabet[0], ID: nodeAlphabet[0]})
 	dir, _ := ioutil.TempDir("", "vharness-commits")
 	defer os.RemoveAll(dir)
-	s, err := retryOpen(badgerstore.Open, badgerOpts(dir).WithNumVersionsToKeep(1 << 20))
+	s, err := retryOpen(badgerstore.Open, badgerOpts(dir).WithNumVersionsToKeep(1<<20))
 	if err != nil {
 		fatal("badger open: %v", err)
 	}
